@@ -212,7 +212,7 @@ def generate(ctx):
         elif n == 4 and not ctx.thorough():
             dags = rng.sample(dags, 150)
         for nodes in dags:
-            dag = {"nodes": nodes, "keys": rng.choice(["str", "tuple", "int"]), "style": rng.choice(["legacy", "spec", "mixed"])}
+            dag = {"nodes": nodes, "keys": rng.choice(["str", "tuple", "int", "falsy"]), "style": rng.choice(["legacy", "spec", "mixed"])}
             reqs = [[n - 1], list(range(n)), rng.choice([[], [[], []], [[], [0]]])] + ([[0]] if n > 1 else [])
             for req in reqs:
                 yield "exh", {"dag": dag, "req": req, "nw": rng.choice([1, 2, 3]), "cs": rng.choice([1, 2, -1]),
